@@ -4,7 +4,7 @@ FILE = 'scales/mux/sink.py'
 MAXTAG = 2 ** 24 - 1
 
 CLASSES = {
-  'TagPool': dict(path='TagPool', bases=[], fields={'_set': 'set[int]', '_next': 'int', '_max_tag': 'int'}),
+  'TagPool': dict(path='TagPool', bases=[], fields={'_set': 'set[int]', '_next': 'int', '_max_tag': 'int', '_varz': 'any', '_log': 'any'}),
   'Tag': dict(path='Tag', bases=[], fields={'_tag': 'int'}),
 }
 
@@ -50,7 +50,7 @@ CLASSES.update({
   'MuxSocketTransportSink': dict(path='MuxSocketTransportSink', bases=['ClientMessageSink'], fields={
     '_tag_map': 'dict[int,tuple[ClientMessageSinkStack,real,Props]]', '_tag_pool': 'TagPool',
     '_state': 'int', '_open_result': 'AsyncResult?', '_send_queue': 'Queue', '_socket': 'MuxSocket',
-    '_greenlets': 'list[Greenlet]'}),
+    '_greenlets': 'list[Greenlet]', '_service': 'any', '_socket_source': 'any'}),
   'Queue': dict(extern=True, path=None, bases=[], fields={}),
   'Socket': dict(extern=True, path=None, bases=[], fields={'connected': 'bool', 'host': 'any', 'port': 'int', 'g_epoch': 'int', 'g_written': 'int'}, ghost=['g_epoch', 'g_written']),
   'Stream': dict(extern=True, path=None, bases=[], fields={}),
@@ -328,4 +328,34 @@ EXTERNS.update({
   'MuxSocket.readAll': dict(params=[('sz', 'int')], returns='bytes', may_raise=['Exception', 'EOFError'], yields=True, ensures=['blen(result) == sz']),
   'MuxSocket.write': dict(params=[('data', 'bytes')], may_raise=['Exception'], yields=True, modifies=['Socket.g_written'],
                           ensures=['self.g_written == old(self.g_written) + 1']),
+})
+
+# ---------------------------------------------------------------------------- construction (C11)
+
+FUNCTIONS.update({
+  # a new pool has leased nothing: the free set is empty and the high-water mark is the reserved tag 1
+  'TagPool.__init__': dict(
+    cls='TagPool', params={'max_tag': 'int', 'service': 'any', 'host': 'any'}, returns='none',
+    requires=['max_tag == 16777215'],
+    ensures=['TagPoolInv(self)', 'self._next == 1', 'forall(t, "int", not (t in self._set))', 'forall(t, "int", not leased(self, t))'],
+    modifies=['TagPool._set', 'TagPool._next', 'TagPool._max_tag', 'TagPool._varz', 'TagPool._log', 'set[int]', '$cls'], allocates=True,
+    literals={'set()': 'set[int]'}, drop=['Varz', 'POOL_LOGGER'],
+    props=['C11'],
+  ),
+  # (re)initialisation on every open: no request is in flight on the new connection and its tag pool is new
+  'MuxSocketTransportSink._Init': dict(
+    cls='MuxSocketTransportSink', returns='none',
+    requires=[],
+    ensures=['MuxInv(self)', 'forall(t, "int", not (t in self._tag_map))', 'fresh(self._tag_pool) and fresh(self._tag_map)', 'self._open_result is None'],
+    modifies=['MuxSocketTransportSink._tag_map', 'MuxSocketTransportSink._open_result', 'MuxSocketTransportSink._tag_pool', 'MuxSocketTransportSink._greenlets',
+              'MuxSocketTransportSink._send_queue', 'dict[int,tuple[ClientMessageSinkStack,real,Props]]', 'list[Greenlet]',
+              'TagPool._set', 'TagPool._next', 'TagPool._max_tag', 'TagPool._varz', 'TagPool._log', 'set[int]', '$cls'],
+    allocates=True,
+    literals={'{}': 'dict[int,tuple[ClientMessageSinkStack,real,Props]]', '[]': 'list[Greenlet]'},
+    props=['C11'],
+  ),
+})
+
+EXTERNS.update({
+  'Queue.__init__': dict(params=[], returns='Queue', fresh=True, allocates=True, ensures=['result is not None']),
 })
